@@ -114,12 +114,13 @@ func checkC19(c *Ctx, e *Env) {
 	for _, pr := range [][2]string{{"NewNonNegativeDecFromString", "NewDecFromString"}, {"NewPositiveDecFromString", "NewDecFromString"}} {
 		fn := byName[pr[0]]
 		ok := fn != nil && callsFn(fn, pr[1])
-		c.Check(ok, "C19.M4", pr[0]+"#parses-via:"+pr[1], posOf(p, fn), pr[0]+" obtains its value from "+pr[1])
+		c.Check(ok, "C19.M4", pr[0]+"#parses-via:"+pr[1], posOf(p, fn), pr[0]+" obtains its value from "+pr[1]+", handing it its own string argument unchanged")
 	}
 	// M5
 	ruleString(c, p, byName)
 	// M6
 	ruleM6(c, e, "C19.M6", false)
+	importObligations(c, e, checkC07, "C07", "C19.TRUNC", "coin conversions#truncate-once", "conversion to integer coins truncates the exact decimal toward zero: each coin amount the price code sends is the truncation of one exact decimal (trunc(a) − trunc(b) is not trunc(a − b))", func(o *Oblig) bool { return o.Rule == "C07.COINS" })
 	c.Min("functions of types/math analysed", 28, c.Analysed["math_functions"])
 	c.Min("mutating apd/big calls checked (M1)", 18, nM1)
 	c.Min("rounding-op call sites seen (M6)", 4, c.Analysed["rounding_call_sites"])
@@ -148,9 +149,19 @@ func sortedKeys[V any](m map[string]V) []string {
 	return ks
 }
 
+// callsFn: fn obtains its value from the types/math function `name`, handing it its own first (string)
+// parameter *unchanged* — a constructor that trims, lower-cases or otherwise normalises the text before
+// parsing accepts strings the strict parser rejects, and handlers store the raw string they validated.
 func callsFn(fn *ssa.Function, name string) bool {
 	for _, ci := range callsIn(fn) {
 		if sc := ci.Common().StaticCallee(); sc != nil && mathFnName(sc) == name && strings.HasSuffix(fnPkgPath(sc), mathPkgSuffix) {
+			if len(fn.Params) > 0 && len(ci.Common().Args) > 0 {
+				if bt, isB := fn.Params[0].Type().Underlying().(*types.Basic); isB && bt.Kind() == types.String {
+					if ci.Common().Args[0] != ssa.Value(fn.Params[0]) {
+						continue
+					}
+				}
+			}
 			return true
 		}
 	}
@@ -861,7 +872,7 @@ func ruleFixed(c *Ctx, p *Program, byName map[string]*ssa.Function, fnName, via 
 		c.Undecide("C19.M4", key, "-", "function "+fnName+" no longer exists")
 		return
 	}
-	c.Check(callsFn(fn, via), "C19.M4", fnName+"#parses-via:"+via, p.Pos(fn.Pos()), fnName+" obtains its value from "+via)
+	c.Check(callsFn(fn, via), "C19.M4", fnName+"#parses-via:"+via, p.Pos(fn.Pos()), fnName+" obtains its value from "+via+", handing it its own string argument unchanged")
 	pos := p.Pos(fn.Pos())
 	ok := len(fn.Params) >= 2 && placesGuarded(fn, fn.Params[1], 0)
 	c.Check(ok, "C19.M4", key, pos, fnName+": every success return lies behind NumDecimalPlaces() <= max")
@@ -1004,17 +1015,23 @@ func ruleString(c *Ctx, p *Program, byName map[string]*ssa.Function) {
 	}
 	ok := false
 	det := "no call to apd.Decimal.Text found"
+	nText, nPlain := 0, 0
 	for _, ci := range callsIn(fn) {
 		if _, name := calleePkgName(ci.Common()); name == "Decimal.Text" {
+			nText++
 			if len(ci.Common().Args) == 2 {
 				if v, isC := constInt(ci.Common().Args[1]); isC && v == 'f' {
-					ok = true
-					det = "renders with Text('f') (plain notation)"
-				} else {
-					det = "Text called with a format other than 'f'"
+					nPlain++
 				}
 			}
 		}
+	}
+	switch {
+	case nText > 0 && nPlain == nText:
+		ok = true
+		det = "renders with Text('f') (plain notation) at every rendering call"
+	case nText > 0:
+		det = "Text is called with a format other than 'f' on some path: values render in scientific notation there"
 	}
 	rets := 0
 	for _, b := range fn.Blocks {
@@ -1396,6 +1413,12 @@ func ruleArith(c *Ctx, e *Env, rule string, keep func(ep *EntryPoint) bool) {
 	ruleM2Contexts(tmp, p, sp, byName, used)
 	ruleM2Literals(tmp, p)
 	ruleNoMachineArith(tmp, p, usedFns)
+	// constructors parse exactly the text they are given (what a handler validated is what it stores)
+	for _, pr := range [][2]string{{"NewNonNegativeDecFromString", "NewDecFromString"}, {"NewPositiveDecFromString", "NewDecFromString"}, {"NewNonNegativeFixedDecFromString", "NewNonNegativeDecFromString"}, {"NewPositiveFixedDecFromString", "NewPositiveDecFromString"}} {
+		if f := byName[pr[0]]; f != nil {
+			tmp.Check(callsFn(f, pr[1]), "C19.M4", pr[0]+"#parses-via:"+pr[1], p.Pos(f.Pos()), pr[0]+" obtains its value from "+pr[1]+", handing it its own string argument unchanged")
+		}
+	}
 	n := 0
 	for _, o := range tmp.Obligs {
 		switch o.Status {
